@@ -87,7 +87,7 @@ def wrap_1d(kind, data, name):
         return pl.Series(name or "", arr.astype(np.float32))
     if kind == "array_f32":
         return arr.astype(np.float32)
-    if kind in ("pd_df_col", "pd_df_one", "pd_df_histogram"):
+    if kind in ("pd_df_col", "pd_df_one", "pd_df_histogram", "pd_df_histogram_all", "pd_df_histogram_list"):
         return pd.DataFrame({name or "col": arr})
     if kind == "pl_frame_select":
         return pl.DataFrame({name or "col": arr, "other": arr * 2.0 + 1.0})
@@ -190,7 +190,7 @@ def check_1d(case, ctx: Ctx):
         got = ctx.call("Series.physt.h1", container.physt.h1, edges, **akw)
     elif via == "accessor" and kind.startswith("pl_series"):
         got = ctx.call("polars Series.physt.h1", container.physt.h1, edges, **kw)
-    elif kind in ("pd_df_col", "pd_df_one", "pd_df_histogram"):
+    elif kind in ("pd_df_col", "pd_df_one", "pd_df_histogram", "pd_df_histogram_all", "pd_df_histogram_list"):
         # pandas DataFrame accessor: a column by name (weights may be the name of another column)
         colname = name or "col"
         akw = {k: v for k, v in kw.items()}
@@ -204,6 +204,11 @@ def check_1d(case, ctx: Ctx):
             got = ctx.call("DataFrame.physt.h1(column)", frame.physt.h1, colname, edges, **akw)
         elif kind == "pd_df_one":
             got = ctx.call("DataFrame.physt.h1() on one column", frame.physt.h1, bins=edges, **akw)
+        elif kind == "pd_df_histogram_all":
+            # "uses all columns if not set": a one-column frame gives the 1-D histogram of that column
+            got = ctx.call("DataFrame.physt.histogram() on one column", frame.physt.histogram, bins=edges, **akw)
+        elif kind == "pd_df_histogram_list":
+            got = ctx.call("DataFrame.physt.histogram([column])", lambda: frame.assign(unrelated=1.0).physt.histogram([colname], bins=edges, **akw))
         else:
             got = ctx.call("DataFrame.physt.histogram(column)", lambda: frame.assign(unrelated=1.0).physt.histogram(colname, bins=edges, **akw))
         name = colname
@@ -242,7 +247,7 @@ def cases_1d(draw, tier="quick"):
         data[draw(st.integers(0, len(data) - 1))] = float("nan")
     kind = draw(st.sampled_from(["list", "tuple", "iterator", "generator", "nested", "array2d", "array2d_fortran", "array2d_view", "pd_series", "pd_series", "pd_series", "pd_series_int",
                                  "pd_series_Int64", "pd_series_Int64", "pl_series", "pl_series", "pl_series_int", "pl_frame1", "dask", "array2d_fortran", "array2d_view",
-                                 "pd_series_f32", "pd_series_f32", "pl_series_f32", "array_f32", "pd_df_col", "pd_df_col", "pd_df_one", "pd_df_histogram", "pl_frame_select",
+                                 "pd_series_f32", "pd_series_f32", "pl_series_f32", "array_f32", "pd_df_col", "pd_df_col", "pd_df_one", "pd_df_histogram", "pd_df_histogram_all", "pd_df_histogram_list", "pl_frame_select",
                                  "named_tuple", "pl_series_chunked"]))
     wk, ws = draw(gen.weights_for(len(data), kinds=("none", "int", "dyadic")))
     wcont = draw(st.sampled_from(["array", "array", "list", "pd_series", "pl_series"]))
@@ -297,6 +302,14 @@ def check_nd(case, ctx: Ctx):
             return physt.h(arr.tolist(), bins, **kw) if len(rows) else physt.h(arr, bins, **kw)
         if kind == "array":
             return physt.h(arr, bins, **kw)
+        if kind == "row_iterator":
+            return physt.h(iter(arr.tolist()), bins, **kw)
+        if kind == "row_generator":
+            return physt.h((tuple(r) for r in arr.tolist()), bins, **kw)
+        if kind == "row_tuples":
+            return physt.h(tuple(tuple(r) for r in arr.tolist()), bins, **kw)
+        if kind == "h2_iterators":
+            return physt.h2(iter(arr[:, 0].tolist()), (x for x in arr[:, 1].tolist()), bins, **kw)
         if kind == "pd_df":
             expected_names = cols
             return physt.h(pd.DataFrame(arr, columns=cols), bins, **kw)
@@ -352,7 +365,7 @@ def check_nd(case, ctx: Ctx):
 @st.composite
 def cases_nd(draw, tier="quick"):
     kind = draw(st.sampled_from(["nested", "array", "pd_df", "pd_df", "pd_df_accessor", "pd_df_select", "pl_df", "pl_df_accessor", "h2_series",
-                                 "h2_pl_series", "h2_lists", "pd_df_weights_series"]))
+                                 "h2_pl_series", "h2_lists", "pd_df_weights_series", "row_iterator", "row_generator", "row_tuples", "h2_iterators"]))
     d = 2 if kind.startswith("h2") else draw(st.sampled_from([2, 2, 3]))
     axes = [draw(gen.pairs(1, 5, gapped=False)) for _ in range(d)]
     n = draw(st.integers(0 if kind in ("array", "pd_df", "pl_df") else 1, 15))
@@ -362,6 +375,62 @@ def cases_nd(draw, tier="quick"):
     wk, ws = draw(gen.weights_for(n, kinds=("none", "int", "dyadic")))
     return {"kind": kind, "d": d, "axes": axes, "rows": rows, "weights": ws, "dropna": draw(st.sampled_from([True, True, True, False])),
             "columns": draw(st.sampled_from([["a", "b", "c"], ["x", "y", "z"], ["col 1", "col2", "c3"]]))}
+
+
+# ---------------------------------------------------------------------------------
+# column labels that are not strings
+
+
+def check_labels(case, ctx: Ctx):
+    """Axis names taken from pandas labels: text, and the same through every facade."""
+    import pandas as pd
+    import physt
+
+    labels = [tuple(l) if isinstance(l, list) else l for l in case["labels"]]
+    arr = np.array(case["rows"], dtype=float).reshape(-1, len(labels))
+    frame = pd.DataFrame({l: arr[:, i] for i, l in enumerate(labels)})
+    edges = [-1.0, 0.0, 1.0, 2.0]
+
+    def text(l):
+        return ", ".join(str(x) for x in l) if isinstance(l, tuple) else str(l)
+
+    seen = {}
+
+    def note(what, h, cols):
+        names = tuple(h.axis_names)
+        for n_, c in zip(names, cols):
+            require(isinstance(n_, str), "axis_name_not_text", f"{what}: axis name {n_!r} ({type(n_).__name__}) for column label {c!r}")
+            require(n_ == text(c), "axis_name_from_label", f"{what}: axis name {n_!r} for column label {c!r}")
+        seen[what] = names
+
+    labels = list(frame.columns)  # (pandas may unify the label types: 0 next to 2.5 becomes 0.0)
+    c0, c1 = labels[0], labels[1]
+    note("h1(frame[c])", ctx.call("h1(frame[c])", physt.h1, frame[c0], edges), [c0])
+    note("frame[c].physt.h1()", ctx.call("Series.physt.h1", frame[c0].physt.h1, edges), [c0])
+    note("frame.physt.h1(c)", ctx.call("DataFrame.physt.h1", frame.physt.h1, c0, edges), [c0])
+    note("h2(frame[c0], frame[c1])", ctx.call("h2(series, series)", physt.h2, frame[c0], frame[c1], [edges, edges]), [c0, c1])
+    note("h(frame[[c0, c1]])", ctx.call("h(frame)", physt.h, frame[[c0, c1]], [edges, edges]), [c0, c1])
+    note("frame.physt.h2(c0, c1)", ctx.call("DataFrame.physt.h2", frame.physt.h2, c0, c1, bins=[edges, edges]), [c0, c1])
+    g = ctx.call("explicit axis_name", physt.h1, frame[c0], edges, axis_name="given")
+    require(g.axis_name == "given", "axis_name_explicit", f"{g.axis_name!r}")
+    ctx.label("label_" + type(c0).__name__)
+    ctx.nt(any(not isinstance(l, str) for l in (c0, c1)))
+
+
+@st.composite
+def label_cases(draw, tier="quick"):
+    kind = draw(st.sampled_from(["int", "int", "tuple", "mixed", "str"]))
+    if kind == "int":
+        labels = draw(st.lists(st.integers(0, 5), min_size=2, max_size=3, unique=True))
+    elif kind == "tuple":
+        labels = [list(t) for t in draw(st.lists(st.tuples(st.sampled_from(["a", "b"]), st.sampled_from(["c", "d", 1])), min_size=2, max_size=3, unique=True))]
+    elif kind == "mixed":
+        labels = draw(st.lists(st.sampled_from([0, 1, "x", 2.5, "energy"]), min_size=2, max_size=3, unique=True))
+    else:
+        labels = draw(st.lists(st.sampled_from(["x", "y", "0", "a b"]), min_size=2, max_size=3, unique=True))
+    n = draw(st.integers(1, 6))
+    rows = draw(st.lists(st.sampled_from([-0.5, 0.0, 0.5, 1.0, 1.5, 2.0]), min_size=n * len(labels), max_size=n * len(labels)))
+    return {"labels": labels, "rows": rows}
 
 
 # ---------------------------------------------------------------------------------
@@ -642,7 +711,7 @@ def check_dask(case, ctx: Ctx):
         got = ctx.call("dask.h3", pdask.h3, darr, "fixed_width", bin_width=w, dask_method=case["method"])
     a, b = snapshot(ref, stats=False, meta=False), snapshot(got, stats=False, meta=False)
     require(snap_equal(a, b), "dask_differs", lambda: snap_diff(a, b))
-    ctx.label(f"chunks{min(len(sizes), 5)}", f"d{case['d']}")
+    ctx.label(f"chunks{min(len(sizes), 5)}" if len(sizes) <= 16 else "chunks17plus", f"d{case['d']}")
     if any(x != x for x in data):
         ctx.label("with_nan")
     ctx.nt(len(sizes) >= 3)
@@ -650,9 +719,16 @@ def check_dask(case, ctx: Ctx):
 
 @st.composite
 def dask_cases(draw, tier="quick"):
-    n = draw(st.integers(1, 30))
+    many = draw(st.integers(0, 3)) == 0
+    if many:
+        # many small chunks (more partial histograms than any internal grouping width)
+        n = draw(st.integers(17, 80))
+        chunks = draw(st.lists(st.integers(1, 3), min_size=n, max_size=n))
+    else:
+        n = draw(st.integers(1, 30))
+        chunks = draw(st.lists(st.integers(1, 10), min_size=1, max_size=6))
     return {"w": draw(st.sampled_from([0.5, 1.0, 0.25, 2.5, 0.1])), "xs": draw(st.lists(st.one_of(st.integers(-15, 15).map(float), st.floats(-15, 15, allow_nan=False)), min_size=n, max_size=n)),
-            "chunks": draw(st.lists(st.integers(1, 10), min_size=1, max_size=6)), "d": draw(st.sampled_from([1, 1, 2, 2, 3])),
+            "chunks": chunks, "d": draw(st.sampled_from([1, 1, 2, 2, 3])),
             "form": draw(st.sampled_from(["dd", "h2", "columns", "split_columns"])),
             "empty_chunks": draw(st.one_of(st.just([]), st.just([]), st.lists(st.integers(0, 6), min_size=1, max_size=2))),
             "as_2d": draw(st.sampled_from([None, 2, 3, 3])), "method": draw(st.sampled_from([None, "thread"])),
@@ -665,8 +741,12 @@ SUBS = [
     Sub("containers_1d", lambda tier: cases_1d(tier), check_1d, quick=800, thorough=3000),
     Sub("containers_nd", lambda tier: cases_nd(tier), check_nd, quick=400, thorough=2500),
     Sub("refusals", lambda tier: refusal_cases(tier), check_refusals, quick=100, thorough=500),
+    Sub("labels", lambda tier: label_cases(tier), check_labels, quick=100, thorough=500),
     Sub("conversions", lambda tier: conversion_cases(tier), check_conversions, quick=500, thorough=2000),
     Sub("dask", lambda tier: dask_cases(tier), check_dask, quick=160, thorough=800),
 ]
 
 RULE += ' Also: float32 containers against the float32 array, bin counts next to explicit edges, DataFrame accessors by column (weights by column name), null-containing weights (refused), dask h2 / h3 / column lists / column-split chunks / zero-length chunks / h1 of unevenly chunked 2-D dask arrays.'
+RULE += ' labels: pandas frames whose column labels are integers (0 included), floats or tuples - the axis names are the labels as text through Series, Series accessor, DataFrame accessor, h2 of two Series and h of the frame; non-trivial = a label that is not a string. dask: one case in four has 17-80 chunks of 1-3 values.'
+RULE += ' containers_nd: rows handed to h as an iterator, a generator of tuples or a tuple of tuples; h2 of two iterators.'
+RULE += ' containers_1d: DataFrame.physt.histogram() of a one-column frame and histogram([column]).'
